@@ -7,7 +7,7 @@ reply and, after every step, every tag's Attribute value is compared with a type
 """
 from __future__ import annotations
 
-from .. import common, tagcheck
+from .. import common, sim, tagcheck
 from ..common import Stats
 
 PID = 'C03'
@@ -19,6 +19,8 @@ RULE = ('case = tag configuration (2..6 tags; 13 element types; scalar/array up 
         'address form or alias name (state compared with the model after every step, so untouched neighbours are '
         'verified each time)')
 ASSUMPTIONS = [
+    'a second engine runs the same kind of histories over TCP against enip.main.main() itself (tags built by main() from its '
+    'command line; one generated configuration per worker process, reset to the simulator\'s own initial values per history)',
     'in-process driver performs the same three steps as enip_srv_tcp (enip_machine framing, logix.process, enip_encode); '
     'tags are built the way enip.main.main() builds them from its command line',
     'requests are encoded and replies decoded by the independent reference codec (vp/refcodec.py)',
@@ -35,20 +37,42 @@ def pred(case, stats):
     tagcheck.run_history(case, stats, PID, 'history')
 
 
-CLAUSES = {'history': pred}
+CLAUSES = {'history': pred, 'tcp-history': lambda case, stats: pred_tcp_replay(case, stats)}
 STRATEGIES = {'history': lambda max_ops: tagcheck.case_strategy('valid', max_ops)}
 
 
+# -- the same histories over TCP against enip.main.main() (one generated configuration per worker process): tagcheck.tcp_*
+
+
+def pred_tcp(case, stats):
+    tagcheck.pred_tcp(case, stats, PID)
+
+
+def tcp_shard(job):
+    _, seed, i, n, max_ops = job
+    return tagcheck.tcp_shard(PID, 'valid', seed, i, n, max_ops, pred_tcp)
+
+
 def shard(job):
+    if job[0] == 'tcp':
+        return tcp_shard(job)
     seed, i, n, max_ops = job
     s = Stats()
     common.hyp_run(s, tagcheck.case_strategy('valid', max_ops), pred, n, common.shard_seed(seed, i), 'history', PID, skey=max_ops)
     return s
 
 
+def pred_tcp_replay(case, stats):
+    """Replay of a TCP failure: the case names its configuration; run it in-process and (if no server runs yet in this
+    process) over TCP."""
+    tagcheck.run_history(case, stats, PID, 'history')
+    if not tagcheck._TCP:
+        pred_tcp(case, stats)
+
+
 def run(tier, seed):
     if tier == 'thorough':
-        jobs = [(seed, i, 400, 60) for i in range(32)]
+        jobs = [(seed, i, 400, 60) for i in range(32)] + [('tcp', seed, i, 120, 40) for i in range(16)]
     else:
-        jobs = [(seed, i, 40, 25) for i in range(16)]
+        jobs = [(seed, i, 40, 25) for i in range(16)] + [('tcp', seed, i, 10, 20) for i in range(8)]
     return common.parallel(shard, jobs)
